@@ -36,7 +36,7 @@ func init() {
 		Oracles:    func(w *World) []Oracle { return nil },
 		TweakCfg:   func(r *Rng, cfg *Config) { cfg.Knobs["env_faults"] = int64(r.Intn(2)) },
 		Quick:      Budget{Runs: 48, MaxEvents: 120},
-		Thorough:   Budget{Runs: 1500, MaxEvents: 300},
+		Thorough:   Budget{Runs: 700, MaxEvents: 300},
 		Essential:  []string{"c15.block_enumerated"},
 		BatchProbe: []string{"c15.block_enumerated", "c15.units_observed"},
 		Rule: "states come from seeded simulated runs; at PRNG-chosen points the whole app's EndBlocker+BeginBlocker are executed on a discarded branch with hook H1 observing every ApplyFuncIfNoError unit, once fault-free and then once per (unit, store access) pair with that access failing (all pairs up to a cap, evenly spaced subset beyond it, flagged); per injection: nothing escapes the hook, the failed unit reports failure, every store equals its state at unit entry, and all units of the same loop are still entered; every block of every run is also executed under recover (an escaped panic is a violation); one case = one run; distinct = distinct digest of the event stream; non-trivial = at least one block was enumerated",
@@ -46,7 +46,7 @@ func init() {
 		ID: "C20", Level: "exploration", Scenarios: []string{"cdp+export"},
 		NewHarness: func(spec *PropSpec) Harness { return &c20Harness{spec: spec} },
 		Quick:      Budget{Runs: 64, MaxEvents: 160},
-		Thorough:   Budget{Runs: 3000, MaxEvents: 500},
+		Thorough:   Budget{Runs: 1200, MaxEvents: 400},
 		Essential:  []string{"c20.exported_and_imported", "c20.state_compared"},
 		BatchProbe: []string{"c20.exported_and_imported", "c20.state_compared", "c20.continuation_tx_compared"},
 		Rule: "one case = one seeded run: a workload builds state, at a PRNG-chosen block the committed state is exported with ExportAppStateAndValidators and a fresh chain is initialised from it; the same continuation events are then applied to both chains; compared: raw ordered contents of every DeFi module store and all non-staking bank balances/supply right after import, after every continuation block and at the end, plus code/log/events of every continuation tx; distinct = distinct digest of the event stream; non-trivial = export+import happened and state was compared",
@@ -56,7 +56,7 @@ func init() {
 		ID: "C01", Level: "exploration", Scenarios: []string{"cdp"},
 		Oracles:   func(w *World) []Oracle { return []Oracle{&c01Oracle{}} },
 		Quick:     Budget{Runs: 160, MaxEvents: 140},
-		Thorough:  Budget{Runs: 6000, MaxEvents: 400},
+		Thorough:  Budget{Runs: 2400, MaxEvents: 400},
 		Essential: []string{"c01.checked_with_open_vaults"},
 		BatchProbe: []string{"c01.checked_with_open_vaults"},
 		Rule: "one case = one seeded simulated run (swarm configuration + PRNG-scheduled users, block boundaries, time gaps, oracle packets, faults) of the whole app; distinct = distinct digest of (event, outcome) sequence; non-trivial = the custody/totals oracle was evaluated at least once with open vaults",
@@ -66,7 +66,7 @@ func init() {
 		ID: "C02", Level: "exploration", Scenarios: []string{"cdp"},
 		Oracles:   func(w *World) []Oracle { return []Oracle{&c02Oracle{}} },
 		Quick:     Budget{Runs: 160, MaxEvents: 140},
-		Thorough:  Budget{Runs: 6000, MaxEvents: 400},
+		Thorough:  Budget{Runs: 2400, MaxEvents: 400},
 		Essential: []string{"c02.mint_checked", "c02.retire_checked"},
 		BatchProbe: []string{"c02.mint_with_fee", "c02.mint_zero_fee", "c02.retire_checked", "c02.fee_paid_from_supply"},
 		Rule: "one case = one seeded simulated run; distinct = distinct digest of (event, outcome) sequence; non-trivial = at least one successful mint and one successful repayment/close were checked against supply, user and collector balance deltas",
@@ -76,7 +76,7 @@ func init() {
 		ID: "C09", Level: "exploration", Scenarios: []string{"cdp"},
 		Oracles:   func(w *World) []Oracle { return []Oracle{&c09Oracle{}} },
 		Quick:     Budget{Runs: 160, MaxEvents: 160},
-		Thorough:  Budget{Runs: 6000, MaxEvents: 500},
+		Thorough:  Budget{Runs: 2400, MaxEvents: 400},
 		Essential: []string{"c09.seizure_checked"},
 		BatchProbe: []string{"c09.seizure_checked", "c09.seizure_clearly_unsafe", "liq.vault_seized_by_keeper_msg", "c09.liveness_clock_running"},
 		TweakCfg: func(r *Rng, cfg *Config) {
@@ -101,7 +101,7 @@ func init() {
 			return []Oracle{newC10(), &relabel{inner: newC11(), only: "c11.custody", prop: "C10", id: "c10.custody"}}
 		},
 		Quick:     Budget{Runs: 160, MaxEvents: 180},
-		Thorough:  Budget{Runs: 6000, MaxEvents: 500},
+		Thorough:  Budget{Runs: 2400, MaxEvents: 400},
 		Essential: []string{"c10.bid_checked"},
 		BatchProbe: []string{"c10.bid_checked", "c10.auction_closed_checked", "c10.price_decayed", "c10.auction_restarted", "c10.owner_refunded", "c10.reserve_topped_up_auction", "c10.reserve_topped_up_after_partial_bids"},
 		TweakCfg: func(r *Rng, cfg *Config) {
@@ -122,7 +122,7 @@ func init() {
 		ID: "C17", Level: "exploration", Scenarios: []string{"oracle"}, PanicIsViolation: true,
 		Oracles:   func(w *World) []Oracle { return []Oracle{&c17Oracle{}} },
 		Quick:     Budget{Runs: 160, MaxEvents: 140},
-		Thorough:  Budget{Runs: 8000, MaxEvents: 500},
+		Thorough:  Budget{Runs: 3000, MaxEvents: 400},
 		Essential: []string{"c17.active_mean_checked"},
 		BatchProbe: []string{"c17.active_mean_checked", "c17.active_mean_checked_n_ge_2", "c17.zero_sample", "c17.feed_outage_ended", "c17.huge_sample", "c17.inactive_observed"},
 		Rule: "one case = one seeded run of the real bandoracle+market pipeline for a drawn window size N in {1,2,3,5,10} and accepted gap, fed through the real IBC callbacks with PRNG-chosen packet fates (drop ack/response/both, reorder, duplicate, stale id, short list, wrong channel, late old response) and sample values (random, zero, repeated, max uint64), assets added mid-run; compared after every block with a reference model (set of admissible windows; mean in big integers); distinct = distinct digest of (event, outcome) sequence; non-trivial = at least one active price was compared with the model mean",
@@ -140,7 +140,7 @@ func init() {
 			}
 		},
 		Quick:      Budget{Runs: 48, MaxEvents: 120},
-		Thorough:   Budget{Runs: 2500, MaxEvents: 400},
+		Thorough:   Budget{Runs: 500, MaxEvents: 300},
 		Essential:  []string{"c16.block_hashes_compared", "c16.fresh_process_replica_compared"},
 		BatchProbe: []string{"c16.block_hashes_compared", "c16.fresh_process_replica_compared"},
 		Rule: "one case = one generated block/tx stream (seeded swarm workload) executed on 5 replicas: primary, second in-process instance, crash/restart instance (App dropped after BeginBlock / after a tx / before Commit / after Commit at plan-chosen points, reopened from the durable DB, interrupted block re-executed), and two fresh OS processes at GOMAXPROCS 1 and 16; compared: per-tx code/gas/log/events, per-block EndBlock events and app hash (Merkle root over every module store incl. bank); distinct = distinct digest of the stream; non-trivial = block hashes compared and at least one fresh-process replica compared",
@@ -150,7 +150,7 @@ func init() {
 		ID: "C03", Level: "exploration", Scenarios: []string{"cdp"},
 		Oracles:   func(w *World) []Oracle { return []Oracle{&c03Oracle{}} },
 		Quick:     Budget{Runs: 160, MaxEvents: 140},
-		Thorough:  Budget{Runs: 6000, MaxEvents: 400},
+		Thorough:  Budget{Runs: 2400, MaxEvents: 400},
 		Essential: []string{"c03.cr_checked"},
 		BatchProbe: []string{"c03.cr_checked", "c03.boundary.cr_near", "c03.boundary.floor_exact"},
 		Rule: "one case = one seeded simulated run with boundary-directed amounts (ratio == MinCr +-2 units, floor +-1, ceiling +-1); distinct = distinct digest of (event, outcome) sequence; non-trivial = the exact-ratio oracle evaluated at least one successful create/draw/withdraw",
@@ -178,7 +178,7 @@ func registerDerived() {
 		ID: "C12", Level: "exploration",
 		Oracles:    func(w *World) []Oracle { return []Oracle{&c12Oracle{}} },
 		Quick:      Budget{Runs: 150, MaxEvents: 160},
-		Thorough:   Budget{Runs: 6000, MaxEvents: 400},
+		Thorough:   Budget{Runs: 2400, MaxEvents: 400},
 		Essential:  []string{"c12.non_owner_attempt"},
 		BatchProbe: []string{"c12.non_owner_attempt", "c12.killswitch_attempt", "c12.killswitch_by_admin_accepted", "c12.contract_message_from_stranger", "c12.contract_message_from_designated_accepted"},
 		Rule: "one case = one seeded simulated run (cdp, lend or dex workload) in which, interleaved with the normal traffic, non-owner actors send every message type that names someone else's position (vault withdraw/draw/close/deposit-and-draw, locker withdraw/close, lend withdraw/close and borrowing against a foreign lend position, borrow draw/close/repay-withdraw/deposit-borrow, order cancel), random actors send MsgKillSwitch, and all 20 custom contract message variants are dispatched through the real CustomMessenger from designated contracts of this and of the other network and from strangers, under chain ids comdex-1, comdex-test3 and sim-1; oracle: non-owner / non-admin / stranger attempts must fail and leave every store except the signer's sequence byte-identical; distinct = distinct digest of the event stream; non-trivial = at least one non-owner attempt was evaluated",
@@ -188,7 +188,7 @@ func registerDerived() {
 		ID: "C14", Level: "exploration",
 		Oracles:    func(w *World) []Oracle { return []Oracle{&c14Oracle{}} },
 		Quick:      Budget{Runs: 160, MaxEvents: 180},
-		Thorough:   Budget{Runs: 6000, MaxEvents: 450},
+		Thorough:   Budget{Runs: 2400, MaxEvents: 400},
 		Essential:  []string{"c14.message_under_breaker"},
 		BatchProbe: []string{"c14.message_under_breaker", "c14.block_under_breaker", "c14.message_after_esm", "c14.mint_attempt_after_esm", "c14.mint_attempt_after_esm_without_kill_switch_record", "c14.message_with_inactive_price"},
 		TweakCfg: func(r *Rng, cfg *Config) {
@@ -248,7 +248,7 @@ func mergeLendParts() {
 			ID: "C18", Level: "exploration", Scenarios: []string{"cdp", "lend"},
 			NewHarness: func(spec *PropSpec) Harness { return &c18Switch{spec: spec} },
 			Quick:      Budget{Runs: 200, MaxEvents: 160},
-			Thorough:   Budget{Runs: 6000, MaxEvents: 400},
+			Thorough:   Budget{Runs: 2400, MaxEvents: 400},
 			EssentialAny: [][]string{{"c18.vault_calc_checked"}, {"c18.locker_calc_checked"}, l.Essential},
 			BatchProbe: append([]string{"c18.vault_calc_checked", "c18.vault_interest_accrued", "c18.zero_time_checked", "c18.twin_vault_compared", "c18.locker_calc_checked"}, l.BatchProbe...),
 			TweakCfg: func(r *Rng, cfg *Config) {
